@@ -302,6 +302,10 @@ pub fn run_case(case: &Value, out: &mut Out) {
 
     // determinism: the same history again (C15)
     if case["twice"].as_bool().unwrap_or(true) {
+        // the second run may be asked to start in another second of the wall clock than the first
+        if let Some(ms) = case["twice_gap_ms"].as_u64() {
+            std::thread::sleep(std::time::Duration::from_millis(ms));
+        }
         let again = mux_once(case, None);
         let same = again.as_ref().map(|(s2, _, _)| s2.content_hash() == s.content_hash() && s2.len == s.len).unwrap_or(false);
         out.ev(json!({"e":"twice","what":"muxing the same history twice gives different bytes","same":same,
